@@ -223,6 +223,21 @@ def sample(ctx, budget=1.0, hint=None, broken=None):
             fail('%s.poly/coeffs' % kind, 'poly(return_coeffs=True) differs from the curve', {'seg': ctor, 't': t}, repr(np.polyval(list(co), t)),
                  repr(complex(*map(float, ex))), 'numpy.polyval(list(svgpathtools.%s.poly(return_coeffs=True)), %r)' % (ctor, t))
         t2 = r.uniform(0, 1)
+        if r.random() < 0.2:
+            # the parameters as a single-precision array (a float32 linspace): the points must still be those of the curve AT THOSE
+            # parameters, to double precision
+            ta_ = np.array([t, r.uniform(0, 1), 0.25], dtype=np.float32)
+            try:
+                pa_ = seg.points(ta_)
+                for x_, g_ in zip(ta_, pa_):
+                    if not _close(g_, _bern_exact_c(ps, float(x_)), tolp):
+                        fail('%s.points/float32 parameters' % kind, 'points(ts) with a float32 array of parameters is not the curve at those parameters (to double precision)',
+                             {'seg': ctor, 't': [float(v_) for v_ in ta_]}, repr(g_), repr(complex(*map(float, _bern_exact_c(ps, float(x_))))),
+                             'list(svgpathtools.%s.points(numpy.array(%r, dtype=numpy.float32)))' % (ctor, [float(v_) for v_ in ta_]))
+                        break
+            except Exception as e:
+                fail('%s.points/float32 raises' % kind, 'points(ts) raised for a float32 array', {'seg': ctor}, repr(e)[:200], 'points',
+                     'list(svgpathtools.%s.points(numpy.array([0.25], dtype=numpy.float32)))' % ctor)
         pts = seg.points([t, t2])
         ex2 = _bern_exact_c(ps, t2)
         if not (_close(pts[0], ex, tolp) and _close(pts[1], ex2, tolp)):
